@@ -304,6 +304,7 @@ func runC09(c *hlib.Ctx) {
 	runC09Fresh(c)
 	runC09Fresh2(c)
 	runC09Fresh2D(c)
+	runC09Objs(c)
 }
 
 // ---------------------------------------------------------------------------
